@@ -288,10 +288,10 @@ RdRemove ==
    observe it (any other placement is equivalent to a later one: the moves commute with everything in between).
      tip  is read by the downloader's poll (tag latest), by Finalize and by Fork;
      fin  is read by GetLastFinalizedBlock, by the poll (tag finalized), by the detector's tick and by Fork;
-     fork is read by FilterLogs / HeaderByNumber(n) of the downloader and of the detector, and must precede a Finalize. *)
+     a fork is read by almost every step (versions by FilterLogs / HeaderByNumber(n), the longer tip by the poll) and must
+     precede a Finalize: it is not restricted. *)
 MineOK == fin = tip \/ (tag = "latest" /\ dl.pc \in {"wait0", "wait"})
 FinOK  == dl.pc = "fin" \/ (tag = "finalized" /\ dl.pc \in {"wait0", "wait"}) \/ (Detector /\ rd.pc = "tick")
-ForkOK == dl.pc \in {"fin", "logs", "hdr"} \/ (Detector /\ rd.pc \in {"tick", "cmp"})
 
 Mine(c) ==
   /\ Free /\ tip < N /\ c \in Contents /\ MineOK
@@ -306,13 +306,16 @@ Finalize ==
   /\ UNCHANGED <<chunk, tag, tip, nforks, fp, H, dl, ch, drv, store, mem, db, rd, fails, pfails, restarts, lastReorg>>
   /\ Log("finalize", fin + 1, <<>>, FALSE)
 
-(* blocks b..tip are replaced (b above the finalized block); the new blocks' contents are free *)
+(* blocks b..tip are replaced (b above the finalized block) and the new fork is one block longer (environment
+   assumption: a fork wins only when it is longer - the downloader waits for a higher tip, so after a same-length fork
+   it would not look again before the next block anyway); the new blocks' contents are free *)
 Fork(b, cs) ==
-  /\ Free /\ nforks < MaxForks /\ b > fin /\ b <= tip /\ ForkOK
+  /\ Free /\ nforks < MaxForks /\ b > fin /\ b <= tip /\ tip < N
   /\ nforks' = nforks + 1
+  /\ tip' = tip + 1
   /\ fp' = [fp EXCEPT ![nforks + 1] = b]
-  /\ H' = [H EXCEPT ![nforks + 1] = [n \in 1..N |-> IF n >= b /\ n <= tip THEN cs[n - b + 1] ELSE -1]]
-  /\ UNCHANGED <<chunk, tag, tip, fin, dl, ch, drv, store, mem, db, rd, fails, pfails, restarts, lastReorg>>
+  /\ H' = [H EXCEPT ![nforks + 1] = [n \in 1..N |-> IF n >= b /\ n <= tip + 1 THEN cs[n - b + 1] ELSE -1]]
+  /\ UNCHANGED <<chunk, tag, fin, dl, ch, drv, store, mem, db, rd, fails, pfails, restarts, lastReorg>>
   /\ Log("fork", b, cs, FALSE)
 
 (* the node is stopped (or dies) at any moment and is started again on the same DB files: Start (load) then Subscribe *)
@@ -344,7 +347,7 @@ Next ==
   \/ Deliver \/ DrvTrack \/ Notify \/ DrvReorg \/ RdRemove
   \/ \E c \in Contents : Mine(c)
   \/ Finalize
-  \/ \E b \in 1..N : b <= tip /\ \E cs \in Seqs(Contents, tip - b + 1) : Fork(b, cs)
+  \/ \E b \in 1..N : b <= tip /\ \E cs \in Seqs(Contents, tip - b + 2) : Fork(b, cs)
   \/ Restart
 
 Spec == Init /\ [][Next]_vars
